@@ -231,6 +231,10 @@ def generate(rng, tier):
             yield "amf0 decm %02x%s6161" % (m, claim)
         yield "amf0 decm 0a00000001%02xffffffff" % m
         yield "amf0 decm 0300016b%02xffffffff" % m
+    # very many tiny values: memory per value must stay a small constant (64 KiB of input each)
+    for unit in ("03000009", "0800000000000009", "0a00000000", "020000", "0300016b05000009", "05", "0100"):
+        yield "amf0 decm " + unit * ((65536 if tier == "thorough" else 16384) // (len(unit) // 2))
+    yield "amf0 decm 0a00001000" + "03000009" * 4096
     for ln in (0, 1, 2, 65535):
         yield "amf0 decm 02%04x" % ln + "61" * min(ln, 3)
         yield "amf0 decm 03%04x" % ln + "61" * min(ln, 3)
